@@ -2,18 +2,37 @@
    Statements only; every proof is [exact lemma]. *)
 From Coq Require Import NArith ZArith List Bool.
 From Coq.Strings Require Import Byte.
-From LOF Require Import Base.Bytes Base.Res Model.Wire Model.Build Model.Proto Model.Parse Proofs.ParseSwP.
+From LOF Require Import Base.Bytes Base.Res Model.Wire Model.Build Model.BuildSw Model.Proto Model.Parse Proofs.ParseSwP
+  Proofs.ParseRtAllP Proofs.ParseRtAll4P Proofs.ParseSwAllP Proofs.ParseSwAll2P Proofs.ParseSwAll3P.
 Import ListNotations.
 Open Scope N_scope.
 
-(* THE FULL STATEMENT: for every well-formed switch-side value t (of the kinds the library
-   has a decoder for), the parser returns t from t's specification encoding.  It is FALSE of
-   the faithful model for echo messages with a body (D37, refuted below) and for table / port /
-   queue statistics replies (D13); elsewhere it is checked by the correspondence run on
-   random conformant frames of every kind and proved here on concrete rich values. *)
-Definition C04_full_statement (wf_sw : tree -> Prop) : Prop :=
-  forall t, wf_sw t -> parse_top (wire t) = Ok t.
+(* THE FULL STATEMENT: for every switch-side value of the kinds the library has a decoder for,
+   the parser returns the value from its specification encoding.  It is FALSE of the faithful
+   model for echo messages with a body (D37, refuted below) and for table / port / queue
+   statistics replies (D13). *)
+Definition C04_full_statement (wf_sw : swrec -> Prop) : Prop :=
+  forall s xid, wf_sw s -> xid < 4294967296 -> parse_top (wire (sw_tree xid s)) = Ok (sw_view xid s).
 
+(* THE THEOREM, for every switch-side value (Model/BuildSw.v: header-only replies, get-config
+   reply, error, experimenter error, port-status, features reply with any number of ports,
+   flow-removed, packet-in, multipart replies description / aggregate / flow statistics with
+   any number of records, instructions and actions, tlv-table reply) whose fields fit their
+   widths ([sw_ok]: numbers below their field widths, fixed-size strings at their size, a match
+   and instructions the decoder's table knows, sizes below 65000): the parser returns exactly
+   the written value - for flow statistics with the instructions in their wire view, for a
+   packet-in without data with the zero Ethernet value the library attaches.  A packet-in's
+   payload is any packet that the packet decoder reads back to itself ([sw_payload_ok]; C09 is
+   about those).  The frame [wire (sw_tree xid s)] is written with the specification's layout
+   tables and lengths (struct ofp_port 64 bytes, ofp_flow_stats.length = the record's extent,
+   ofp_match padded to 8 ...); the correspondence run checks that an independent Go encoder
+   produces the same bytes. *)
+Theorem C04_switch_values_parse_to_themselves : forall s xid, sw_ok s = true -> sw_payload_ok s -> xid < 4294967296 ->
+  parse_top (wire (sw_tree xid s)) = Ok (sw_view xid s).
+Proof. exact parse_switch_value. Qed.
+Print Assumptions C04_switch_values_parse_to_themselves.
+
+(* concrete rich values (no hypothesis left), by computation *)
 Theorem C04_examples : Forall (fun t => parse_top (wire t) = Ok t) sw_examples.
 Proof. exact sw_examples_ok. Qed.
 Print Assumptions C04_examples.
@@ -22,6 +41,7 @@ Theorem C04_hello_unknown_element_skipped :
   parse_top ([x04; x00; x00; x18; x00; x00; x00; x01] ++ [x00; x01; x00; x08; x00; x00; x00; x12] ++ [x00; x07; x00; x06; xaa; xbb; x00; x00])
   = Ok (T KHello [VN 4; VN 0; VN 24; VN 1] [T KHelloElemBitmap [VN 1; VN 8; VB [x00; x00; x00; x12]] []]).
 Proof. exact hello_unknown_element_skipped. Qed.
+Print Assumptions C04_hello_unknown_element_skipped.
 
 Theorem C04_refuted_echo_body :
   parse_top [x04; x02; x00; x0c; x00; x00; x00; x01; xde; xad; xbe; xef] = Ok (T KHeaderOnly [VN 4; VN 2; VN 12; VN 1] []) /\
